@@ -543,64 +543,21 @@ def traceUp (trace : List (Query × UpOut)) (q : Query) : Resp := traceFind trac
 
 /-! ## known-finding classes (decidable predicates on the upstream trace) -/
 
-/-- `C07.DsAnswerWithoutDsAccepted`: a DS response whose answer section is non-empty yet holds no DS -/
-def dsAnswerWithoutDs (trace : List (Query × UpOut)) : Bool :=
-  trace.any fun e =>
-    e.1.qtype == tDS &&
-      match e.2 with
-      | .ok m | .noRecords m => !m.an.isEmpty && !(m.an.any (·.rtype == tDS))
-      | _ => false
-
-/-- `C07.OrphanDnskeyRrsigPanic`: an RRSIG covering DNSKEY without a DNSKEY of that owner in its section -/
-def orphanDnskeyRrsigIn (sec : List Rec) : Bool :=
-  sec.any fun s => s.isSig && s.covered == tDNSKEY &&
-    !(sec.any fun k => k.rtype == tDNSKEY && k.name == s.name)
-
-def orphanDnskeyRrsig (trace : List (Query × UpOut)) : Bool :=
-  trace.any fun e =>
-    match e.2 with
-    | .ok m | .noRecords m => orphanDnskeyRrsigIn m.an || orphanDnskeyRrsigIn m.ns || orphanDnskeyRrsigIn m.ad
-    | _ => false
-
-/-- `C07.UnsignedDnskeyRrsetSecure` / `C07.AnchorKeyForeignOwnerSecure` (on a validated section): a DNSKEY
-record is Secure although no RRSIG over its RRset is marked as the one that validated it -/
-def unsignedSecureDnskeyIn (sec : List Rec) : Bool :=
-  sec.any fun r => r.rtype == tDNSKEY && r.proof == .secure &&
-    !(sec.any fun s => s.isSig && s.covered == tDNSKEY && s.name == r.name && s.proof == .secure)
-
-/-- `C07.AnchorKeyForeignOwnerSecure`: a DNSKEY whose key is a trust anchor, under a non-root owner -/
+/-- `C07.AnchorKeyForeignOwnerSecure` (open): a DNSKEY whose key is a trust anchor, under a non-root owner -/
 def anchorKeyForeignOwner (env : Env) (trace : List (Query × UpOut)) : Bool :=
   trace.any fun e =>
     match e.2 with
     | .ok m | .noRecords m => m.all.any fun r => r.rtype == tDNSKEY && env.anchor r.rid && !r.name.isRoot
     | _ => false
 
-/-- `C07.AdIgnoresSoaProof` (on the validated message): a negative answer in which every authority record
-that is not Secure is a SOA record, and there is such a SOA -/
-def soaOnlyNotSecure (m : Msg) : Bool :=
-  m.an.isEmpty && m.ns.any (fun r => r.rtype == tSOA && r.proof != .secure) &&
-    m.ns.all fun r => r.proof == .secure || r.rtype == tSOA
-
-/-- `C07.BogusNegativeWithoutSoaForwarded`: a negative answer without a SOA that carries a Bogus record -/
-def bogusNegativeWithoutSoa (m : Msg) : Bool :=
-  m.an.isEmpty && !(m.ns.any (·.rtype == tSOA)) && m.ns.any (·.proof == .bogus)
-
-/-- the answer section holds a record of the queried type, or a CNAME, at the query name -/
-def answersQuestion (q : Query) (m : Msg) : Bool :=
-  m.an.any fun r => r.name == q.name && (r.rtype == q.qtype || r.rtype == 5)
-
-/-- `C07.AnswerSectionWithoutAnswerAccepted` (on the validated message): a non-empty answer section that does
-not answer the question, nothing marked Bogus -/
-def answerSectionWithoutAnswer (q : Query) (m : Msg) : Bool :=
-  !m.an.isEmpty && !answersQuestion q m && !((m.an ++ m.ns).any (·.proof == .bogus))
-
-/-- `C07.InsecureAuthorityAcceptsDenial`: an empty answer section with an authority section that is Insecure
-throughout (exit 1 of `ok_exits`) -/
-def insecureAuthorityDenial (m : Msg) : Bool :=
-  m.an.isEmpty && !m.ns.isEmpty && m.ns.all (·.proof == .insecure)
-
-/-- `C07.SoaAnswerWithoutSoaNotServfail`: a SOA query whose non-empty answer section comes without any SOA -/
-def soaAnswerWithoutSoa (q : Query) (m : Msg) : Bool :=
-  q.qtype == tSOA && !m.an.isEmpty && !(m.all.any (·.rtype == tSOA))
+/-- `C07.ForeignSignerInheritsInsecure` (open): an RRSIG whose signer is neither its owner nor an ancestor of its
+owner, or a DNSKEY answer holding a DNSKEY of another owner than the queried one -/
+def foreignSigner (trace : List (Query × UpOut)) : Bool :=
+  trace.any fun e =>
+    match e.2 with
+    | .ok m | .noRecords m =>
+      m.all.any (fun s => s.isSig && !zoneOf s.signer s.name) ||
+        (e.1.qtype == tDNSKEY && m.an.any fun k => k.rtype == tDNSKEY && k.name != e.1.name)
+    | _ => false
 
 end HickoryVerif.Chain
